@@ -55,7 +55,14 @@ type vfC14Inst struct {
 	cancelled bool
 	busy      chan struct{} // non-nil while the event loop is parked inside a thunk of ours
 	frozen    string        // canonical node state taken just before the loop was parked (it cannot be asked later)
+	heldReply bool          // the loop is parked at the yield point in front of a reply (released like busy)
 }
+
+// operations whose request the event loop answers on a response channel: the explorer can park the loop between
+// accepting such a request and answering it ("opreply:<name>")
+var vfC14ReplyOps = []string{"join", "subscribe", "relay", "listpeers", "gettopics", "topicclose", "cancelsub"}
+
+const vfC14ReplyKey = "loop-reply|<none>"
 
 // vfC14BusyCopies: an operation issued while the event loop is busy parks at its hand-off to the loop; when the loop
 // comes back after the cancellation, its select takes either one of the waiting hand-offs or the cancelled
@@ -164,6 +171,11 @@ func (in *vfC14Inst) Enabled() []string {
 		return evs // nothing else moves while the loop is parked
 	}
 	evs = append(evs, "busy")
+	for _, name := range vfC14ReplyOps {
+		if !in.started[name] {
+			evs = append(evs, "opreply:"+name)
+		}
+	}
 	for _, e := range in.vfGWInst.Enabled() {
 		evs = append(evs, e)
 	}
@@ -188,6 +200,40 @@ func (in *vfC14Inst) Apply(ev string, judge bool) string {
 			}
 		}()
 		synctest.Wait()
+		return ""
+	}
+	if strings.HasPrefix(ev, "opreply:") {
+		// the event loop accepts the request of this operation and is then held right in front of its reply: from
+		// here on it is busy, with one caller waiting for an answer that is already computed
+		name := ev[len("opreply:"):]
+		in.started[name] = true
+		in.lastEv = ev
+		frozen := in.vfGWInst.Canon()
+		g := in.g
+		g.ymu.Lock()
+		g.yArmed[vfC14ReplyKey] = true
+		g.ymu.Unlock()
+		in.start(name)
+		synctest.Wait()
+		_, parked := g.yieldState()
+		held := false
+		for _, k := range parked {
+			if k == vfC14ReplyKey {
+				held = true
+			}
+		}
+		if held {
+			in.frozen = frozen
+			in.busy = make(chan struct{})
+			in.heldReply = true
+			gate := in.busy
+			go func() { <-gate; g.releaseYield(vfC14ReplyKey) }()
+		} else {
+			g.ymu.Lock()
+			delete(g.yArmed, vfC14ReplyKey)
+			g.ymu.Unlock()
+			in.g.collect()
+		}
 		return ""
 	}
 	if strings.HasPrefix(ev, "op:") {
@@ -235,6 +281,9 @@ func (in *vfC14Inst) shutdown(judge bool) string {
 	if in.busy != nil {
 		if judge {
 			in.count("cancellations_with_the_loop_busy")
+			if in.heldReply {
+				in.count("cancellations_with_the_loop_held_before_a_reply")
+			}
 		}
 		close(in.busy) // the loop comes back to find the context cancelled and hand-offs waiting
 		synctest.Wait()
